@@ -35,19 +35,19 @@ var props = map[string]propCfg{
 		Assumptions: commonAssumptions,
 	},
 	"C16": {
-		Require: []string{"processes_checked", "runs_at_chosen_time_of_day", "runs_with_silent_input", "long_sessions_with_event_log", "runs_with_record_directory_behind_a_symlink"},
+		Require: []string{"processes_checked", "runs_at_chosen_time_of_day", "runs_with_silent_input", "long_sessions_with_event_log", "runs_with_record_directory_behind_a_symlink", "runs_with_event_log_in_the_record_directory", "runs_with_a_tiny_first_read"},
 		BinRace: true, QuickBatches: 8, ThoroughBatches: 48, Parallel: 8, Bins: []string{"rtcmlogger"}, Level: "exploration", Floor: 30,
 		Rule:        "the real rtcmlogger binary, built from the current tree with the race detector and the hook overlay, run as a process in a fresh directory: inputs of 0, 1, 2, 100, 5000, 8095, 8096, 8097, 2*8096-1..+1, 3*8096+1, 40 kB, 100 kB (thorough: up to 2 MB) bytes, random / all-zero / text; stdin as a regular file, a pipe written in chunks of 100 / 1000 / 8096 / random size with 0-3 ms gaps, or a pipe closed immediately after one write; GOMAXPROCS in {1,2,16}; hook profiles: none (natural schedule), a 20 ms delay before the recorder's write call, 5 ms before the log write, 3 ms before the recorder's receive, frequent yields. Oracle: process stdout equals stdin byte for byte, and after exit the date-ordered concatenation of rtcmlogger.*.rtcm in the configured directory equals stdin. Non-trivial: non-empty input with a hook profile or piped stdin. Distinct by hash of the case.",
 		Assumptions: commonAssumptions,
 	},
 	"C10": {
-		Require: []string{"filter_outputs_checked", "process_outputs_checked", "record_files_checked", "display_logs_checked", "outputs_judged_by_construction", "live_sessions", "sessions_with_one_write_held_up", "long_process_sessions", "cases_with_empty_reads", "sessions_with_a_silence_inside_a_frame"},
+		Require: []string{"filter_outputs_checked", "process_outputs_checked", "record_files_checked", "display_logs_checked", "outputs_judged_by_construction", "live_sessions", "sessions_with_one_write_held_up", "long_process_sessions", "cases_with_empty_reads", "sessions_with_a_silence_inside_a_frame", "cases_with_many_empty_reads_in_a_row"},
 		BinRace: true, QuickBatches: 8, ThoroughBatches: 48, Parallel: 8, Bins: []string{"rtcmfilter"}, AppTests: []string{"rtcmfilter"}, Level: "exploration", Floor: 40,
 		Rule:        "(a) in process, through a test file added to apps/rtcmfilter at check time by the build overlay: HandleMessages(start, reader, writer, config) with all four display/record combinations, paced/chunked readers, writers that are fast / yielding / sleeping, GOMAXPROCS in {1,2,4,16}, race detector on; the written bytes are compared at quiescence, defined on goroutine states (every goroutine with a frame in apps/rtcmfilter/main.go parked in a channel receive or gone, no write in flight, call counter stable). (b) the real binary built from the current tree with the hook overlay and the race detector: stdin as a file or a pipe written in random chunks with gaps, stdout read fast or through a 4 kB pipe read slowly, yield/sleep hook profiles, files read after exit as the date-ordered concatenation of the fresh log directory. Oracle: for inputs built from known segments (clean streams, well-formed decodable messages incl. SBAS/QZSS/NavIC and illegal timestamps) the expected output is the concatenation of the generator's own frame segments - independent of the code; for captured batches and hostile streams it is the concatenation of the typed messages of the same build's sequential framing, each required to be a frame by the independent predicate; the record file must hold the same bytes; readable log has one 'Frame length N bytes:' entry per delivered message. Inputs: captured batches, clean streams ending in a frame, hostile streams, well-formed decodable messages, truncated tails. Non-trivial: >= 2 messages delivered. Distinct by hash of the case.",
 		Assumptions: commonAssumptions,
 	},
 	"C11": {
-		Require: []string{"complete_at_return", "process_output_complete", "cases_with_a_closable_writer", "cases_with_an_eof_tolerance"},
+		Require: []string{"complete_at_return", "process_output_complete", "cases_with_a_closable_writer", "cases_with_an_eof_tolerance", "cases_with_hundreds_of_messages_behind_a_held_up_write"},
 		BinRace: true, QuickBatches: 8, ThoroughBatches: 48, Parallel: 8, Bins: []string{"rtcmfilter", "displayrtcm3"}, AppTests: []string{"rtcmfilter", "displayrtcm3"}, Level: "exploration", Floor: 40,
 		Rule:        "in process (overlay-added test in each application's package main, race detector on): HandleMessages is called with a writer that completes each Write only after a delay (none / yields / 20 us - 1.5 ms sleep / blocks 5 ms per call) and counts completed bytes; the bytes completed are snapshotted by the calling goroutine in the statement after the call returns - no waiting is part of the verdict: a strict prefix of the full expected output = violation, equal = held. Expected output from the same build sequentially: headings + String()+newline of every message (displayrtcm3) or the valid frames (rtcmfilter). Inputs with 1..200 messages ending in a valid frame / junk / truncated frame; GOMAXPROCS in {1,2,16}. Plus process-level runs of both real binaries over finite files with stdout read fast or through a small slow pipe: the bytes that reach the pipe before exit are compared the same way. Non-trivial: non-empty input and a writer that is not instantaneous. Distinct by hash of the case.",
 		Assumptions: commonAssumptions,
@@ -71,7 +71,7 @@ var props = map[string]propCfg{
 		Assumptions: commonAssumptions,
 	},
 	"C09": {
-		Require: []string{"messages_received_by_consumers", "hook_events", "sources_processed", "runs_with_empty_reads", "runs_with_silent_source", "runs_with_a_consumer_held_up_once", "runs_with_interruption_after_a_held_up_consumer", "runs_with_io_timeout_interruptions", "runs_with_a_long_consumer_list", "runs_with_many_empty_reads_in_a_row", "runs_ending_with_a_read_error"},
+		Require: []string{"messages_received_by_consumers", "hook_events", "sources_processed", "runs_with_empty_reads", "runs_with_silent_source", "runs_with_a_consumer_held_up_once", "runs_with_interruption_after_a_held_up_consumer", "runs_with_io_timeout_interruptions", "runs_with_a_long_consumer_list", "runs_with_many_empty_reads_in_a_row", "runs_ending_with_a_read_error", "live_feeds_beginning_with_nul_bytes"},
 		Race:    true, QuickBatches: 16, ThoroughBatches: 96, Parallel: 8, Level: "exploration", Floor: 40,
 		Rule:        "pipeline runs of the real file handler + fan-out (appcore.HandleMessagesUntilEOF) under the race detector: inputs are the captured batches and generated clean/hostile streams (200 B - 12 kB); the reader delivers chunks of 1..{1,2,7,64,500,5000} bytes with yield/sleep profiles; 1-4 consumer channels with capacities {0,1,4,64}, nil entries at any index and fast/yielding/slow(50us-2ms)/bursty consumers; GOMAXPROCS in {1,2,3,4,8,16}; check-time yield/sleep hooks before every channel operation of file_handler, handler, pushback and appcore (5 profiles). Oracle: every non-nil consumer's (type, raw bytes) sequence equals the same build's sequential framing of the same bytes; raw bytes do not change after delivery; the call returns 0; afterwards no goroutine with a frame in the four pipeline files remains (blocked in every sample for 200 ms = violation, still runnable = inconclusive); double close / send on closed channel / race report end the child. Non-trivial: >=2 real consumers, >=10 messages and a perturbation active. Distinct by hash of (input, reader, consumers, GOMAXPROCS, hook profile, seed).",
 		Assumptions: commonAssumptions,
@@ -90,7 +90,7 @@ var props = map[string]propCfg{
 		Assumptions: commonAssumptions,
 	},
 	"C08": {
-		Require:      []string{"ranges_compared", "phase_ranges_compared", "rates_compared", "msm4_msm7_pairs_compared", "invalid_rough_cells", "invalid_rate_cells", "cells_rechecked_after_display", "brief_display_columns_checked"},
+		Require:      []string{"ranges_compared", "phase_ranges_compared", "rates_compared", "msm4_msm7_pairs_compared", "invalid_rough_cells", "invalid_rate_cells", "cells_rechecked_after_display", "brief_display_columns_checked", "messages_with_satellites_without_cells"},
 		QuickBatches: 8, ThoroughBatches: 64, Parallel: 16, Level: "exploration", Floor: 1000,
 		Rule:        "signal cells for GPS, GLONASS, Galileo and BeiDou MSM4/MSM7: whole ms random plus 0/254/255(invalid), and all 0..255 swept with boundary fractions; fractional in {0,1,511,512,1023,random}; fine range / phase / rate in {min(invalid), min+1, -1, 0, 1, max, random}; rough rate in {-8192(invalid), +-8191, 0, +-1, random}; signal ids mostly those with a documented frequency, all 8x32 (constellation, id) pairs swept. Three quarters of the cells are obtained by decoding a one-cell message built by the independent encoder (so the library assigns the wavelength), one quarter by direct construction. Oracle: 200-bit big.Float evaluation of c/1000*(whole+frac/1024+fine*2^-24|2^-29), the same with 2^-29|2^-31 divided by the wavelength, rough+fine/10000 and its negative over the wavelength; relative tolerance 1e-12; wavelength against c/f from a table pinned in the harness; invalid-rough => zero and 'invalid' in the text; invalid-fine => rough alone; MSM4 cell vs the MSM7 cell encoding the same quantity; cases with a negative true value are executed but excluded from the numeric comparison, as the property states. Non-trivial: rough range not 0/0. Distinct by hash of the case.",
 		Assumptions: commonAssumptions,
@@ -114,7 +114,7 @@ var props = map[string]propCfg{
 		Assumptions: commonAssumptions,
 	},
 	"C07": {
-		Require:      []string{"type_length_pairs_swept", "stream_messages", "frames_reported_as_error", "raw_inputs_to_single_frame_decoding", "periodic_stream_bytes", "one_byte_messages_displayed", "all_types_swept_with_short_bodies"},
+		Require:      []string{"type_length_pairs_swept", "stream_messages", "frames_reported_as_error", "raw_inputs_to_single_frame_decoding", "periodic_stream_bytes", "one_byte_messages_displayed", "all_types_swept_with_short_bodies", "full_cell_mask_frames", "long_runs_without_a_start_byte"},
 		QuickBatches: 16, ThoroughBatches: 128, Parallel: 16, Level: "exploration", Floor: 1000,
 		Rule:        "(1) CRC-valid frames for each of 19 type numbers (1005, 1006, the 14 MSM types, 1230, 1, 4095) x EVERY payload length 1..1023 x payload shapes (uniform random, sparse, all ones, plausible header with few mask bits, masks announcing 65..2048 cells, zeros), plus all 256 one-byte payloads; (2) well-formed 1005/1006/MSM bodies (independent encoder) truncated at every byte position, with mask bits forced upward, and with illegal timestamps; (3) arbitrary streams through the stream handler (all 0xD3, maximal length claims with short data, random up to 20 kB / 1 MB, hostile mixes). Each frame goes through single-frame decoding, Copy, String, Analyse, PrepareForDisplay and String again at both log levels under recover(); streams run on the handler's own goroutine so a panic there ends the child and is attributed to the on-disk witness. A case that runs for 60 s (>10^4 x median) is re-run alone and only then called a hang. Non-trivial: a CRC-valid frame of a decodable type shorter than / inconsistent with its layout, or a hostile stream. Distinct by hash of the bytes.",
 		Assumptions: commonAssumptions,
